@@ -14,11 +14,19 @@ HOLDS, VIOLATED, UNRECOGNISED = "HOLDS", "VIOLATED", "UNRECOGNISED"
 
 
 class Instance:
-    __slots__ = ("rule", "file", "qual", "construct", "verdict", "detail", "expected", "trivial")
+    __slots__ = ("rule", "file", "qual", "construct", "verdict", "detail", "expected", "trivial", "site")
 
     def __init__(self, rule, file, qual, construct, verdict, detail=None, expected=None, trivial=False):
         self.rule, self.file, self.qual, self.construct = rule, file, qual, construct
         self.verdict, self.detail, self.expected, self.trivial = verdict, detail, expected, trivial
+        self.site = None
+        if os.environ.get("SNT_SITES"):
+            import sys
+            f = sys._getframe(1)
+            while f is not None and f.f_code.co_filename.endswith("report.py"):
+                f = f.f_back
+            if f is not None:
+                self.site = f"{os.path.basename(f.f_code.co_filename)}:{f.f_lineno}"
 
     @property
     def key(self):
